@@ -1,6 +1,7 @@
 package core
 
-// C04 schedules part: the informer goroutine (gang cache event handlers) races the scheduling goroutine
+// C04 schedules part: the informer goroutine (gang cache event handlers) or the binding goroutine (PostBind /
+// Unreserve of a released member) races the scheduling goroutine
 // (Permit / AllowGangGroup / Unreserve / PostBind / AfterPostFilter) on the same gang group; every interleaving
 // up to a preemption bound under the controlled scheduler (sync shim on this package). Oracle: no deadlock, no
 // panic, the partition invariant at quiescence, and the observable outcome (permit verdicts, Allow/Reject
@@ -34,7 +35,25 @@ type c04World struct {
 	iDone     int               // informer events completed
 	holding   map[string]bool   // pods that hold a reservation (scheduler goroutine's own view)
 	bound     map[string]bool   // pods post-bound by the scheduler goroutine
+	hb        []c04HB           // every version of (holding, bound) of this execution: a second goroutine (the binding cycle) changes them too
+	pbStarted int               // PostBind calls started (a started PostBind may already have set the once-satisfied flag)
 	viol      []string
+}
+
+type c04HB struct{ holding, bound map[string]bool }
+
+// snap records the current (holding, bound) as a new version. Additions of a holder are recorded before the call
+// that adds it and removals after the call that removes it has returned, so the versions spanned by a Permit call
+// cover every set of holders the call may legitimately have read.
+func (w *c04World) snap() {
+	h, b := map[string]bool{}, map[string]bool{}
+	for k, v := range w.holding {
+		h[k] = v
+	}
+	for k, v := range w.bound {
+		b[k] = v
+	}
+	w.hb = append(w.hb, c04HB{h, b})
 }
 
 func (w *c04World) informer(pn string, add, del, addBound bool, f func()) {
@@ -59,15 +78,16 @@ func (w *c04World) informer(pn string, add, del, addBound bool, f func()) {
 //
 // The pod under Permit itself always counts: it holds its reservation, and a deletion of that very pod racing its own
 // scheduling cycle is a race no permit logic can close (its bind fails and rolls the group back afterwards).
-func (w *c04World) quorumAt(k int, self string) bool {
+func (w *c04World) quorumAt(k, hv int, self string) bool {
 	cfg := w.s.cfg
+	holding, bound := w.hb[hv].holding, w.hb[hv].bound
 	for _, g := range cfg.gangs {
 		n := 0
 		for _, pn := range g.Pods {
 			if !w.members[k][pn] && pn != self {
 				continue
 			}
-			if w.holding[pn] || (cfg.policy == extension.GangMatchPolicyWaitingAndRunning && w.bound[pn]) {
+			if holding[pn] || (cfg.policy == extension.GangMatchPolicyWaitingAndRunning && bound[pn]) {
 				n++
 			}
 		}
@@ -106,9 +126,10 @@ func c04Steps() map[string]c04Step {
 			s := w.s
 			s.h.allowLog = nil
 			w.holding[pn] = true // Reserve has run
-			k0 := w.iDone
+			w.snap()
+			k0, h0 := w.iDone, len(w.hb)-1
 			_, st := s.mgr.Permit(context.TODO(), w.obj[pn])
-			k1 := w.iStarted
+			k1, h1 := w.iStarted, len(w.hb)-1
 			switch st {
 			case Wait:
 				s.h.waiting[pn] = &c04WaitingPod{pod: w.obj[pn], h: s.h}
@@ -124,11 +145,13 @@ func c04Steps() map[string]c04Step {
 					for k := 0; k < k1 && k < len(w.addBounds); k++ {
 						exempt = exempt || w.addBounds[k]
 					}
-					exempt = exempt || k1 > len(w.addBounds)
+					exempt = exempt || k1 > len(w.addBounds) || w.pbStarted > 0
 				}
 				ok := exempt
 				for k := k0; k <= k1 && k < len(w.members) && !ok; k++ {
-					ok = w.quorumAt(k, pn)
+					for hv := h0; hv <= h1 && !ok; hv++ {
+						ok = w.quorumAt(k, hv, pn)
+					}
 				}
 				if !ok && k1 >= len(w.members) {
 					ok = true // an informer event is still in flight at the end of the call: unknown membership, be permissive
@@ -151,8 +174,9 @@ func c04Steps() map[string]c04Step {
 			s := w.s
 			s.h.rejectLog = nil
 			delete(s.h.waiting, pn)
-			delete(w.holding, pn)
 			s.mgr.Unreserve(context.TODO(), framework.NewCycleState(), w.obj[pn], "n1", s.h, Name)
+			delete(w.holding, pn)
+			w.snap()
 			rl := append([]string{}, s.h.rejectLog...)
 			sort.Strings(rl)
 			for _, n := range rl {
@@ -161,9 +185,11 @@ func c04Steps() map[string]c04Step {
 			w.log = append(w.log, fmt.Sprintf("%s:unreserve(%s) rejected%v", tag, pn, rl))
 		}}
 		m["postBind("+pn+")"] = c04Step{"scheduler.postBind(" + pn + ")", func(w *c04World, tag string) {
+			w.pbStarted++
 			w.s.mgr.PostBind(context.TODO(), w.obj[pn], "n1")
 			delete(w.holding, pn)
 			w.bound[pn] = true
+			w.snap()
 		}}
 		m["unschedulable("+pn+")"] = c04Step{"scheduler.unschedulable(" + pn + ")", func(w *c04World, tag string) {
 			s := w.s
@@ -197,6 +223,7 @@ func (sc c04Scen) String() string {
 func c04BuildWorld(sc c04Scen, steps map[string]c04Step) *c04World {
 	s := c04NewSys(sc.cfg, nil)
 	w := &c04World{s: s, obj: map[string]*corev1.Pod{}, bnd: map[string]*corev1.Pod{}, members: []map[string]bool{{}}, holding: map[string]bool{}, bound: map[string]bool{}}
+	w.snap()
 	for pn, p := range s.pods {
 		w.obj[pn] = sc.cfg.podObj(p, "")
 		w.bnd[pn] = sc.cfg.podObj(p, "n1")
@@ -208,6 +235,8 @@ func c04BuildWorld(sc c04Scen, steps map[string]c04Step) *c04World {
 	w.log = nil
 	w.members = []map[string]bool{w.members[len(w.members)-1]}
 	w.addBounds, w.iStarted, w.iDone, w.viol = nil, 0, 0, nil
+	w.hb = nil
+	w.snap()
 	return w
 }
 
@@ -311,6 +340,27 @@ func c04Scenarios(env *mc.Env) []c04Scen {
 		{two, []string{"add(a)", "add(b)", "add(c)", "permit(a)", "permit(b)"},
 			[][]string{{"permit(c)"}, {"permit(c)", "postBind(c)"}, {"unreserve(a)"}, {"unschedulable(c)"}},
 			[][]string{{"delete(a)"}, {"delete(c)"}, {"update(c)"}, {"delete(b)", "add(b)"}, {"delete(a)", "delete(b)"}}},
+	}
+	// the binding cycle is a goroutine of its own: PostBind / a failed bind's Unreserve of a released member races the
+	// scheduling goroutine's next cycles (retries of members whose bind failed). Not part of the free-running race pass:
+	// the fake handle's waiting map is shared by the two threads (the real framework guards its map with a lock).
+	if vsync.FreeRunReps == 0 {
+		three := []c04GangDef{{"G1", 3, []string{"a", "b", "c"}}}
+		released := []string{"add(a)", "add(b)", "add(c)", "permit(a)", "permit(b)", "permit(c)"}
+		tmpls = append(tmpls,
+			// all three released, binds of b and c failed: a alone holds resources while it is post-bound
+			tmpl{three, append(append([]string{}, released...), "unreserve(b)", "unreserve(c)"),
+				[][]string{{"permit(b)"}, {"permit(b)", "permit(c)"}, {"permit(b)", "unreserve(b)"}},
+				[][]string{{"postBind(a)"}, {"unreserve(a)"}}},
+			// all three released, bind of c failed: a and b are post-bound / rolled back while c retries
+			tmpl{three, append(append([]string{}, released...), "unreserve(c)"),
+				[][]string{{"permit(c)"}, {"permit(c)", "unreserve(c)"}},
+				[][]string{{"postBind(a)", "postBind(b)"}, {"postBind(a)", "unreserve(b)"}, {"unreserve(a)"}}},
+			// two gangs: G1's b and G2's c failed to bind, c retries while a is post-bound
+			tmpl{two, append(append([]string{}, released...), "unreserve(b)", "unreserve(c)"),
+				[][]string{{"permit(c)"}, {"permit(b)"}, {"permit(c)", "permit(b)"}},
+				[][]string{{"postBind(a)"}, {"unreserve(a)"}}},
+		)
 	}
 	modes := []string{extension.GangModeStrict}
 	pols := []string{extension.GangMatchPolicyOnceSatisfied, extension.GangMatchPolicyWaitingAndRunning}
@@ -431,7 +481,7 @@ func TestVerifC04Sched(t *testing.T) {
 	res.Exhaustive = complete
 	res.MaxCounter("max_schedules_in_one_scenario", maxExecs)
 	res.Bounds = map[string]any{"preemption_bound": bound, "threads": 2, "calls_per_thread": "1-2", "scenarios_total": len(scens)}
-	res.Rule = "every schedule (scheduling points at every Lock/RLock/Unlock/RUnlock of the package's mutexes) of each scenario within the preemption bound; scenario = prepared gang group state + scheduler-goroutine calls || informer-goroutine events; states = distinct (scenario, outcome) pairs; transitions/traces = complete executions of the real code"
+	res.Rule = "every schedule (scheduling points at every Lock/RLock/Unlock/RUnlock of the package's mutexes) of each scenario within the preemption bound; scenario = prepared gang group state + scheduler-goroutine calls || informer-goroutine events (or binding-goroutine calls); states = distinct (scenario, outcome) pairs; transitions/traces = complete executions of the real code"
 	res.Assumptions = []string{"only lock operations are scheduling points: code between two lock operations of one thread runs atomically",
 		"the framework's waiting-pod map is only touched by the scheduling goroutine in these scenarios"}
 	env.Emit(res)
